@@ -121,8 +121,14 @@ func TestC04(t *testing.T) {
 			lay = gen.RandomLayout{T: rt, Comments: true, Conts: true, Linebreaks: true}
 		}
 		r := gen.Render(p.Stream, lay)
-		one(rt, r.Src, true, "generated")
-		st.Sample(r.Src)
+		src := r.Src
+		if rapid.IntRange(0, 7).Draw(rt, "bom") == 0 {
+			// a byte order mark is an ordinary character of the first word
+			src = "\uFEFF" + src
+			st.Class("source_begins_with_U+FEFF")
+		}
+		one(rt, src, true, "generated")
+		st.Sample(src)
 	}
 	runRapid(t, n, prop)
 }
